@@ -707,9 +707,11 @@ impl<D: Data<Elem = A>, A: Float + LinalgScalar> AffFuncBase<PolytopeT, D> {
     /// Tests whether the input ``point`` lies inside this polytope or not.
     #[inline]
     pub fn contains<S: Data<Elem = A>>(&self, point: &ArrayBase<S, Ix1>) -> bool {
+        // a point with an infinite coordinate is not a point of the polytope, although its
+        // distance to every half-space that is unbounded in that direction is +inf
         self.distance_raw(point)
             .into_iter()
-            .all(|x| x >= A::from(-1e-8).unwrap())
+            .all(|x| x.is_finite() && x >= A::from(-1e-8).unwrap())
     }
 }
 
